@@ -311,12 +311,16 @@ impl TerminalRenderer {
             if let CellKind::Image(image) = &old.kind {
                 term.execute(TerminalCommand::ImageErase(image.clone(), Some(pos)))?;
                 let size = image.size_cells(self.size.pixels_per_cell());
+                // NOTE: cells that are already known to be under the new image
+                //       (processed earlier in this pass) must stay ignored.
                 self.marks
                     .view_mut(
                         pos.row..pos.row + size.height,
                         pos.col..pos.col + size.width,
                     )
-                    .fill(CellMark::Damaged);
+                    .iter_mut()
+                    .filter(|mark| **mark != CellMark::Ignored)
+                    .for_each(|mark| *mark = CellMark::Damaged);
             }
 
             // record image to be rendered, and mark area under the image to be ignored
